@@ -8,6 +8,7 @@ AmtsA == {10, 20, 300, 1500}
 SlipsQ == {-1, 30, 500}
 SlipsA == {-1, 30, 2500}
 RatesQ == {<<3, 1>>, <<7, 5>>}
+RatesQ1 == {<<7, 5>>}
 RatesA == {<<3, 1>>, <<1, 3>>, <<7, 5>>}
 RatesB == {<<3, 1>>, <<7, 5>>}
 KQsQ == {0, 100}
